@@ -295,6 +295,11 @@ SPECIAL = [
      'class Job:\n    timeout = None\n    def __init__(self):\n        self.timeout = 30\njob = Job()\njob.timeout\n', (6, 10), [4]),
     ('class-default-of-a-base-loses-to-the-subclass-instance-assignment',
      'class Base:\n    timeout = None\nclass Job(Base):\n    def setup(self):\n        self.timeout = 30\njob = Job()\njob.timeout\n', (7, 10), [5]),
+    ('class-default-of-the-subclass-loses-to-the-instance-assignment-of-a-base',
+     'class Base:\n    def setup(self):\n        self.timeout = 30\nclass Client(Base):\n    timeout = None\nc = Client()\nc.timeout\n', (7, 8), [3]),
+    ('class-default-of-the-subclass-loses-to-the-instance-assignment-of-a-grandparent',
+     'class Root:\n    def setup(self):\n        self.handler = print\nclass Mid(Root):\n    pass\nclass Leaf(Mid):\n    handler = None\nleaf = Leaf()\nleaf.handler\n',
+     (9, 12), [3]),
     ('valued-annotation-is-an-instance-assignment',
      'class K:\n    z = 1\n    def m(self):\n        self.z: int = 3\n        return self\nobj = K()\nobj.z\n', (7, 5), [4]),
 ]
@@ -303,7 +308,7 @@ OBJECT_DIAMOND = ('class B(object):\n    pass\nclass C(object):\n    def __repr_
 
 
 @harness(['C06'], 'supp.assistant.location on obj.attr [annotations without a value; explicit object bases]',
-         bounded='3 programs: self.x: T without a value, self.z: T = v, and class D(B, C) with B(object), C(object) overriding a method of object')
+         bounded='7 programs: self.x: T without a value, self.z: T = v, instance assignments against class defaults (own class, base, grandparent), and class D(B, C) with B(object), C(object) overriding a method of object')
 def special_lookups(run):
     """BOUNDED: a bare annotation `self.x: T` assigns nothing (the class attribute is what Python finds); an annotated assignment does; a method of
     `object` inherited through an explicit `(object)` base of an earlier base class does not hide the override in a later base (object is last
